@@ -545,15 +545,18 @@ func H07e() {
 		askedStart, askedEnd = vU32(), vU32()
 		ask = &Envelope_TransactionRangeQuery{TransactionRangeQuery: &TransactionRangeQuery{Start: askedStart, End: askedEnd}}
 	}
-	t0 := time.Now()
+	// the harness reads the clock variable directly (no tick); the code under test reads it through time.Now
+	t0 := hNowSec
 	conv := cMan.startConversation(ask, hPeerN(1))
 	vAssert(conv != nil && string(ask.conversationID()) == string(conv.conversationID) && len(conv.conversationID) > 0, "H07e.first_conversation_starts: first conversation with a peer refused or without id")
-	t1 := time.Now()
-	vAssert(!conv.expiry.Before(t0.Add(maxValidity)) && !conv.expiry.After(t1.Add(maxValidity)), "H07e.expiry_is_validity: conversation does not expire one validity period after it started")
+	t1 := hNowSec
+	expiry := conv.expiry.Unix()
+	vAssert(expiry >= t0+30 && expiry <= t1+30, "H07e.expiry_is_validity: conversation does not expire one validity period (30 s) after it started")
 
+	// time passes: 0..70 s
+	hNowSec += int64(vRange(0, 70))
 	// what happens to it before the answer arrives
 	live := true
-	evictedLate := false
 	switch vChoice(4) {
 	case 1:
 		vCover("done")
@@ -561,18 +564,16 @@ func H07e() {
 		live = false
 	case 2:
 		vCover("evict")
-		before := time.Now()
+		before := hNowSec
 		cMan.evict()
-		after := time.Now()
-		if before.After(conv.expiry) {
+		after := hNowSec
+		live = len(cMan.conversations) == 1
+		if before > expiry {
 			vCover("evicted")
-			evictedLate = true
-			live = false
-			vAssert(len(cMan.conversations) == 0, "H07e.evict_removes_expired: an expired conversation survived eviction")
-		} else if !after.After(conv.expiry) {
-			vAssert(len(cMan.conversations) == 1, "H07e.evict_keeps_unexpired: an unexpired conversation was evicted")
-		} else {
-			live = len(cMan.conversations) == 1
+			vAssert(!live, "H07e.evict_removes_expired: an expired conversation survived eviction")
+		} else if after <= expiry {
+			vCover("evict-kept")
+			vAssert(live, "H07e.evict_keeps_unexpired: an unexpired conversation was evicted")
 		}
 	case 3:
 		vCover("done-other")
@@ -643,25 +644,22 @@ func H07e() {
 	case hAskRange:
 		ask2 = &Envelope_TransactionRangeQuery{TransactionRangeQuery: &TransactionRangeQuery{}}
 	}
-	before := time.Now()
+	before := hNowSec
 	conv2 := cMan.startConversation(ask2, peer)
-	after := time.Now()
+	after := hNowSec
 	blocking := kind != hAskState && kind2 != hAskState && !other && live
 	if conv2 == nil {
 		vCover("blocked")
 		vAssert(blocking, "H07e.blocked_only_by_live_blocking_conversation: request refused without a live blocking conversation with the same peer")
-		vAssert(!before.After(conv.expiry), "H07e.unblocked_after_expiry: peer still blocked after the blocking conversation expired")
+		vAssert(before < expiry, "H07e.unblocked_after_expiry: peer still blocked after the blocking conversation expired")
 	} else {
 		vCover("started")
 		vAssert(conv2.conversationID != conv.conversationID, "H07e.fresh_id: conversation id reused")
-		if blocking && after.Before(conv.expiry) {
-			vAssert(false, "H07e.blocks_while_live: second blocking request to the same peer accepted while the first is live and unexpired")
-		}
 		if blocking {
 			vCover("unblocked-by-expiry")
+			vAssert(after >= expiry, "H07e.blocks_while_live: second blocking request to the same peer accepted while the first is live and unexpired")
 		}
 	}
-	_ = evictedLate
 }
 
 func H07e_twin() {
@@ -669,9 +667,8 @@ func H07e_twin() {
 	cMan := newConversationManager(maxValidity)
 	a := &Envelope_TransactionRangeQuery{TransactionRangeQuery: &TransactionRangeQuery{Start: 1, End: 2}}
 	c1 := cMan.startConversation(a, hPeerN(1))
-	now := time.Now()
 	c2 := cMan.startConversation(&Envelope_TransactionListQuery{TransactionListQuery: &TransactionListQuery{}}, hPeerN(1))
-	if c1 != nil && c2 != nil && now.After(c1.expiry) {
+	if c1 != nil && c2 != nil && hNowSec >= c1.expiry.Unix() {
 		vAssert(false, "H07e_twin.reach: reachable")
 	}
 }
